@@ -1,5 +1,5 @@
 #!/bin/sh
 # tools/capture.sh PROP RUN_SEED KEY : runs one generated run, keeps its minimised replay as findings/KEY.json
 cd /verif && SIMLAB_NO_EXCLUDE=1 ./check $1 --run-seed $2 | grep -E "^violation|HARNESS" | cut -c1-300
-f=out/scratch/$1/$2.json; [ -f $f ] || f=out/$1/$2.json
+f=$(ls -t out/scratch/$1-*/$2.json 2>/dev/null | head -1); [ -n "$f" ] && [ -f "$f" ] || f=out/$1/$2.json
 cp $f findings/$3.json && echo saved findings/$3.json
